@@ -16,6 +16,6 @@ for d in sorted(glob.glob("/verif/seeded/*/")):
             if line.startswith("#"):
                 title = line.lstrip("# ").strip()
                 break
-    title = re.sub(r"^C\d\d\s*/\s*m\d(-alt)?\s*[-–—:]\s*", "", title)
+    title = re.sub(r"^C\d\d\s*/\s*m\d+(-alt)?\s*[-–—:]\s*", "", title)
     esc = lambda s: (s or "").replace("|", "\\|").replace("\n", " ")
     print("| %s | %s | %s | %s |" % (n, esc(title), esc(m.get("needs_to_manifest")), esc(m.get("caught_by"))))
